@@ -16,13 +16,14 @@ PROPERTY = {
     'technique': 'z3 encoding of thread interleavings generated from executions of the real code: every access to the shared-state cells named by the property is recorded per thread, one integer time-stamp per event, program order + read-from constraints; the solver decides whether ANY schedule lets a read observe another thread\'s write (unsat = no interleaving can change any thread\'s reads); satisfying schedules are replayed with real threads under a baton-passing scheduler before anything is reported',
     'level_text': 'Bounded predictive analysis decided by z3: for every scenario (2..3 threads with different files, safe flags, an include, a failing input) the query "some schedule makes some read return a value written by another thread" is unsat over ALL interleavings at shared-memory-event granularity (finer than Python lines).  Inputs are enumerated scenarios; only the schedule is symbolic.',
     'assumptions': [
-        'the wrapped cells (ConfigNode._default_filename, ConfigNode._default_safe incl. re-binding of these class slots, errors._api_entered) are all inter-thread communication of a build; every other module-/class-level mutable object of the package is listed in the evidence (shared_state_inventory) and is not written during a build',
+        'the wrapped cells are all inter-thread communication of a build: ConfigNode._default_filename, ConfigNode._default_safe (incl. re-binding of these class slots), errors._api_entered, and EVERY plain dict/list/set held at module or class level of the package (replaced by recording subclasses, so a write during a build is an event; cells no thread writes are dropped from the encoding); state reachable only through instances, closures or other packages is not recorded',
+        'lazily filled caches are warm: every body runs once unrecorded before the recording (first-use races of the scalar type tables are outside the claim)',
         'each wrapped access is atomic under the GIL; the code of a thread is deterministic given the values it reads',
         'vacuity guard: the same machinery run on a twin in which one slot is a plain (non thread-local) object must find and replay a real violation',
     ],
-    'bounds': {'threads': '2 (quick) / 2..3 (thorough)', 'scenarios': 'pairs/triples over 6 thread bodies (safe file, unsafe file, file with include, failing input after a good source, raw string with file name, evaluated unsafe call)',
+    'bounds': {'threads': '2 (quick) / 2..3 (thorough)', 'scenarios': 'pairs/triples over 8 thread bodies (safe file, unsafe file, file with include, failing input after a good source, multi-document file, evaluated unsafe call (refused), the same call from a safe file, evaluated safe file with xref/eval/call sharing paths with the former)',
                'events': '<= ~400 per thread'},
-    'outside': ['thread inputs beyond the listed bodies', 'more than 3 threads', 'shared state outside the package (sys.modules entries created by multi-line !eval are outside: builds here do not evaluate !eval)'],
+    'outside': ['thread inputs beyond the listed bodies', 'more than 3 threads', 'shared state outside the package (sys.modules entries created by multi-line !eval are outside: the !eval here is a single expression)'],
 }
 
 
@@ -34,6 +35,7 @@ def write_files(d):
     open(os.path.join(d, 'bad.yaml'), 'w').write('p: 1\nbad: !nosuchtag 1\n')
     open(os.path.join(d, 'fE.yaml'), 'w').write('e1: {e2: [1]}\n---\ne3: 2\n')
     open(os.path.join(d, 'fF.yaml'), 'w').write('f: !call:dict {u: 1}\ng: 2\n')
+    open(os.path.join(d, 'fG.yaml'), 'w').write('g: !xref f.u\nf: !call:dict {u: 7, w: !eval "g + 1"}\nh: !xref f\n')
 
 
 def bodies(d):
@@ -45,14 +47,16 @@ def bodies(d):
         'D': {'sources': [(j('fA.yaml'), True), (j('bad.yaml'), True)]},
         'E': {'sources': [(j('fE.yaml'), None), (j('fB.yaml'), True)]},
         'F': {'sources': [(j('fF.yaml'), False)], 'evaluate': True},
+        'G': {'sources': [(j('fG.yaml'), True)], 'evaluate': True},
+        'H': {'sources': [(j('fF.yaml'), True)], 'evaluate': True},
     }
 
 
 def scenarios(tier):
-    pairs = [('A', 'B'), ('A', 'C'), ('B', 'C'), ('A', 'D'), ('C', 'D'), ('B', 'D'), ('B', 'F'), ('E', 'C'), ('D', 'F'), ('A', 'A')]
+    pairs = [('A', 'B'), ('A', 'C'), ('B', 'C'), ('A', 'D'), ('C', 'D'), ('B', 'D'), ('B', 'F'), ('H', 'G'), ('F', 'G'), ('E', 'C'), ('D', 'F'), ('A', 'A'), ('G', 'G')]
     if tier == 'quick':
-        return [list(p) for p in pairs[:7]]
-    return [list(p) for p in pairs] + [['A', 'B', 'C'], ['A', 'C', 'D'], ['B', 'D', 'F'], ['C', 'E', 'F']]
+        return [list(p) for p in pairs[:9]]
+    return [list(p) for p in pairs] + [['A', 'B', 'C'], ['A', 'C', 'D'], ['B', 'D', 'F'], ['C', 'E', 'F'], ['H', 'G', 'D']]
 
 
 def run(tier, seed, twin=False):
